@@ -190,14 +190,14 @@ func (ex *Exec) havocCall(fr *Frame, sig *types.Signature, what string) Value {
 }
 
 type HavocResult struct {
-	Fn       string   `json:"function"`
-	Status   string   `json:"status"` // ok | swallows | unsupported | trivial
-	Detail   string   `json:"detail,omitempty"`
-	Helpers  []string `json:"helpers,omitempty"`
-	Ms       int64    `json:"ms"`
-	Terms    int      `json:"terms"`
-	Instrs   int      `json:"ssa_instructions"`
-	Witness  string   `json:"witness,omitempty"`
+	Fn      string   `json:"function"`
+	Status  string   `json:"status"` // ok | swallows | unsupported | trivial
+	Detail  string   `json:"detail,omitempty"`
+	Helpers []string `json:"helpers,omitempty"`
+	Ms      int64    `json:"ms"`
+	Terms   int      `json:"terms"`
+	Instrs  int      `json:"ssa_instructions"`
+	Witness string   `json:"witness,omitempty"`
 }
 
 // runHavoc checks one function.
